@@ -1220,9 +1220,11 @@ def join(
         )
         right_on_names = set(col.name for col in right if col._uuid in on_uuids)
 
-        if not (right_names - right_on_names) & left_names:
+        if not (right_names - right_on_names) & left_names and not (
+            {name + suffix for name in right_names & left_names} & (right_names - left_names)
+        ):
             # If nothing except join columns clashes, we only rename the clashing
-            # columns on the right.
+            # columns on the right (unless a new name collides with another right column).
             right >>= rename({col: col.name + suffix for col in right if col.name in left_names})
 
         else:
